@@ -212,6 +212,28 @@ def same_object(a, b):
     return a is b
 
 
+def field(a, name):
+    return a[name]
+
+
+def field_names(a):
+    return a.dtype.names
+
+
+def field_type(a, name):
+    return a.dtype[name].base.str
+
+
+def field_subshape(a, name):
+    return a.dtype[name].shape
+
+
+def arr_eq(a, b):
+    import numpy as np
+    a, b = np.asarray(a), np.asarray(b)
+    return a.shape == b.shape and bool(np.array_equal(a, b))
+
+
 def approx(a, b, scale=1.0):
     """equality over the reals for the prover; at run time equality up to floating-point rounding (1e-9 relative)"""
     a, b = float(a), float(b)
@@ -242,7 +264,8 @@ def shares_buffer(a, b):
 
 RUNTIME_VOCAB = dict(bo_fields=bo_fields, bo_names=bo_names, bo_order=bo_order, bo_bytes=bo_bytes, bo_swapped=bo_swapped,
                      bo_value=bo_value, machine_little=machine_little, bo_big=bo_big, bo_little=bo_little, bo_native=bo_native,
-                     same_object=same_object, shares_buffer=shares_buffer, approx=approx, shape0=shape0, shape1=shape1, sqrt=sqrt,
+                     same_object=same_object, shares_buffer=shares_buffer, approx=approx, field=field, field_names=field_names,
+                     field_type=field_type, field_subshape=field_subshape, arr_eq=arr_eq, shape0=shape0, shape1=shape1, sqrt=sqrt,
                      is_permutation=is_permutation, implies=implies, permutation=permutation, is_sorted=is_sorted, pairs_kept=pairs_kept)
 
 
